@@ -436,3 +436,22 @@ Theorem C01_dyn_fmt_plain_text : forall fmt args, all_chars no_brace fmt = true 
 Proof. exact dyn_format_plain. Qed.
 Check C01_dyn_fmt_plain_text : forall fmt args, all_chars no_brace fmt = true -> dyn_format fmt args = Ok fmt.
 Print Assumptions C01_dyn_fmt_plain_text.
+
+(* ---- the complete model RUNS: a program through format (with a number, an oracle string and a function among
+        the arguments), print over time_now, `^`, and to_string of a list holding a function — none of which
+        the smaller dispatchers could evaluate — under a concrete oracle (identity functions, clock at 1 s) ---- *)
+Definition ex_all_call (b : builtin) (args : list expr) : expr := ECall (EBuiltin b) args.
+Definition ex_all_prog : list stmt :=
+  [SExpr (ex_all_call B_format [EStr "{}|{}|{}"; ex_all_call B_sin [ENum (num_of_Z 2)];
+                                ex_all_call B_uppercase [EStr "ab"]; ELam [AReq "x"] (EId "x")]);
+   SExpr (ex_all_call B_print [EStr "t={}"; ex_all_call B_time_now []]);
+   SExpr (EBin Power (ENum (num_of_Z 3)) (ENum (num_of_Z 4)));
+   SExpr (ex_all_call B_to_string [EList [Cm [] (ELam [AReq "x"] (EId "x")) None]])].
+Example C01_complete_model_runs :
+  run_program_all oracle_trivial [] ex_all_prog
+  = "OK:S327c61627c3c66756e6374696f6e3e;|OK:U|OK:N4008000000000000|OK:S5b3c66756e6374696f6e3e5d;;ENV:".
+Proof. vm_compute. reflexivity. Qed.
+(* ... and what the print call of that program writes to stderr *)
+Example C01_print_line_example :
+  print_line oracle_trivial [VStr "t={}"; VNum (num_of_Z 1)] = Ok "t=1".
+Proof. vm_compute. reflexivity. Qed.
